@@ -216,3 +216,56 @@ func VerifC18Unquoted() {
 	vrtObserve("K", got["K"])
 	vrtAssert("unquoted-value", got["K"] == w)
 }
+
+// VerifC18Tokens: files assembled from the parser's own vocabulary (keywords, separators, quotes, escapes, comment
+// and reference markers) and concrete non-ASCII characters whose UTF-8 encoding ends in bytes that read as blanks
+// (0x85, 0xA0) when taken one by one. Any panic is a violation; a line made of a key of letters, `=` and a value
+// parses to exactly that pair, and a bare key of letters is inherited from the lookup under exactly that name.
+func VerifC18Tokens() {
+	dict := []string{"export", "export ", "K", "A", "=", ":", " ", "\n", "\"", "'", "#", "$", "{", "}", "\\", "\t", "\r", "à", "Å", "é", "丅", "\u0085", " ", "\xa0", "\xc3"}
+	n := 1 + vrtChoice("tokens", vrtParam("TOK", 3))
+	src := ""
+	for k := 0; k < n; k++ {
+		src += dict[vrtChoice("token", len(dict))]
+	}
+	_, err := UnmarshalWithLookup(src, func(k string) (string, bool) { return "v", k == "K" })
+	vrtObserve("err", err != nil)
+}
+
+func VerifC18Keys() {
+	letters := []string{"K", "b", "_", "à", "Å", "é", "ö", "丅", "ą", "Š"}
+	n := 1 + vrtChoice("letters", vrtParam("KL", 2))
+	key := ""
+	for k := 0; k < n; k++ {
+		key += letters[vrtChoice("letter", len(letters))]
+	}
+	vrtAssume(key[0] != '_' || len(key) > 1)
+	form := vrtChoice("form", 4)
+	sep := []string{"=", ": ", " = "}[vrtChoice("sep", 3)]
+	var src string
+	want := map[string]string{}
+	switch form {
+	case 0:
+		src = key + sep + "1\n"
+		want[key] = "1"
+	case 1:
+		src = "export " + key + sep + "1"
+		want[key] = "1"
+	case 2: // bare key, inherited from the lookup
+		src = "A=0\n" + key
+		want["A"] = "0"
+		want[key] = "looked-up"
+	case 3: // bare key followed by blanks
+		src = key + " \nA=0\n"
+		want["A"] = "0"
+		want[key] = "looked-up"
+	}
+	got, err := UnmarshalWithLookup(src, func(k string) (string, bool) { return "looked-up", k == key })
+	vrtObserve("err", err != nil)
+	vrtAssert("line-of-letters-parses", err == nil)
+	if err != nil {
+		return
+	}
+	vrtObserve("n", len(got))
+	vrtAssert("exact-key-and-value", vrtDeepEqual(got, want))
+}
